@@ -119,6 +119,21 @@ func safeExec(c Component, op string) (res, mon, class string, nontrivial bool) 
 	return c.Exec(op)
 }
 
+// genPanicOp is the synthetic op recorded when a component's generator panics (usually: real code called by the
+// generator to pre-compute oracle tokens panicked).  The ops emitted before the panic are kept and compared as usual.
+const genPanicOp = "!gen-panic "
+
+// safeGen runs Gen under recover; returns "" or the description of the panic.
+func safeGen(c Component, r *Rand, tier string, emit func(string)) (mon string) {
+	defer func() {
+		if e := recover(); e != nil {
+			mon = fmt.Sprintf("PANIC in the generator (real code called while building an op): %v", e)
+		}
+	}()
+	c.Gen(r, tier, emit)
+	return ""
+}
+
 type stats struct {
 	Evaluations       int            `json:"evaluations"`
 	DistinctNontrival int            `json:"distinct_nontrivial"`
@@ -165,6 +180,18 @@ func main() {
 		for sc.Scan() {
 			line := sc.Text()
 			op := strings.TrimPrefix(line, name+" ")
+			if strings.HasPrefix(op, genPanicOp) {
+				// synthetic op written when the generator itself panicked: run the generator again
+				var gseed uint64
+				var gtier string
+				_, _ = fmt.Sscanf(strings.TrimPrefix(op, genPanicOp), "%d %s", &gseed, &gtier)
+				mon := safeGen(c, NewRand(gseed), gtier, func(string) {})
+				fmt.Printf("GEN-PANIC\n")
+				if mon != "" {
+					fmt.Fprintf(os.Stderr, "MONITOR %s\n", mon)
+				}
+				continue
+			}
 			res, mon, _, _ := safeExec(c, op)
 			fmt.Printf("%s\n", res)
 			if mon != "" {
@@ -226,7 +253,16 @@ func runGen(name string, c Component, seed uint64, tier, out, corpus string, noG
 		}
 	}
 	if !noGen {
-		c.Gen(NewRand(seed), tier, emit)
+		if mon := safeGen(c, NewRand(seed), tier, emit); mon != "" {
+			lineNo++
+			op := fmt.Sprintf("%s%d %s after %d ops", genPanicOp, seed, tier, lineNo-1)
+			fmt.Fprintf(opsW, "%s %s\n", name, op)
+			fmt.Fprintf(implW, "GEN-PANIC\n")
+			fmt.Fprintf(monW, "%d\t%s\t%s %s\n", lineNo, mon, name, op)
+			st.MonitorFailures++
+			st.Evaluations++
+			st.Classes["gen-panic"]++
+		}
 	}
 	st.DistinctNontrival = len(distinct)
 	b, _ := json.MarshalIndent(st, "", " ")
